@@ -54,6 +54,7 @@ type Case struct {
 	// quiescence in between): "" | grow (every peer announces N new
 	// blocks) | headers (peer 0 sends the next N headers unsolicited) |
 	// drop (every peer closes its connection).
+	// reorg (every peer switches to the competing branch and announces it).
 	StopRace string `json:"stop_race,omitempty"`
 	RaceN    int    `json:"race_n,omitempty"`
 	// StopOn: Stop is called not at StopAtMs but in the instant a peer puts
@@ -62,6 +63,10 @@ type Case struct {
 	// answer and the shutdown race.
 	StopOn  string `json:"stop_on,omitempty"`
 	StopOnK int    `json:"stop_on_k,omitempty"`
+	// ReorgAtMs > 0: at that instant every peer reorganises to the world's
+	// competing (heavier) branch and announces it, so that Stop (above all
+	// with StopOn) can fall into the middle of the reorganisation.
+	ReorgAtMs int `json:"reorg_at_ms,omitempty"`
 }
 
 func genCase(t *rapid.T) Case {
@@ -74,7 +79,9 @@ func genCase(t *rapid.T) Case {
 		}
 	}
 	ws := kit.WorldSpec{P: p, Seed: rapid.Uint64Range(0, 3).Draw(t, "wseed"), Base: base, Future: 12, Pace: 1, Tx: true}
-	ws.Branches = []kit.BranchSpec{{Parent: 0, At: max(1, base-3), Len: 12, Pace: 1}}
+	// a competing branch that outweighs everything the peers show before the
+	// reorganisation (their views end at base+9 at most)
+	ws.Branches = []kit.BranchSpec{{Parent: 0, At: max(1, base-kit.Pick(t, "forkback", []int{1, 3, 3, 6})), Len: 17, Pace: 1}}
 	c := Case{World: ws}
 	switch kit.Uni(t, "prefillsel", 3) {
 	case 0:
@@ -115,7 +122,8 @@ func genCase(t *rapid.T) Case {
 	// verif-tag gate in front of that mutex queues the waiters on a channel
 	// instead, so any number of filter users can be generated.
 	c.StopAtMs = kit.Pick(t, "stopat", []int{0, 1, 50, 500, 2000, 7000, 20000, 45000})
-	c.StopRace = kit.Pick(t, "stoprace", []string{"", "grow", "grow", "headers", "drop"})
+	c.StopRace = kit.Pick(t, "stoprace", []string{"", "grow", "grow", "headers", "drop", "reorg", "reorg"})
+	c.ReorgAtMs = kit.Pick(t, "reorgat", []int{0, 0, 0, 1, 40, 400, 1900, 6000})
 	c.RaceN = rapid.IntRange(1, 8).Draw(t, "racen")
 	if kit.Uni(t, "stoponp", 3) == 0 {
 		c.StopOn = kit.Pick(t, "stopon", []string{"cfheaders", "cfheaders", "headers", "block", "cfilter", "cfcheckpt"})
@@ -304,6 +312,7 @@ func runCase(t *testing.T, c Case) kit.Verdict {
 		// advance to the stop instant, starting callers on the way
 		now := 0
 		dropped := make([]bool, len(c.Peers))
+		reorged := false
 		for now <= c.StopAtMs {
 			trigMu.Lock()
 			early := stopEarly
@@ -326,7 +335,17 @@ func runCase(t *testing.T, c Case) kit.Verdict {
 					v.Class("peer-dropped-before-stop")
 				}
 			}
+			if c.ReorgAtMs > 0 && !reorged && c.ReorgAtMs <= now && len(w.Br) > 1 {
+				reorged = true
+				for _, p := range s.Peers {
+					p.SetView(w.Br[1].Tip(), true)
+				}
+				v.Class("reorg-before-stop")
+			}
 			next := c.StopAtMs + 1
+			if c.ReorgAtMs > 0 && !reorged && c.ReorgAtMs < next {
+				next = c.ReorgAtMs
+			}
 			for _, st := range states {
 				if !st.started && st.c.AtMs < next {
 					next = st.c.AtMs
@@ -390,6 +409,12 @@ func runCase(t *testing.T, c Case) kit.Verdict {
 				for _, p := range s.Peers {
 					p.SetRefuse(true)
 					p.Disconnect()
+				}
+			case "reorg":
+				if len(w.Br) > 1 {
+					for _, p := range s.Peers {
+						p.SetView(w.Br[1].Tip(), true)
+					}
 				}
 			}
 			v.Class("stop-race:%s", c.StopRace)
